@@ -51,9 +51,8 @@ def convert_to_bool_expression(qlassf: QlassF, form: str):
 
 
 def convert_to_dimacs(expr):
-    clauses = to_cnf(expr, simplify=True).args
-    if len(clauses) == 1 and isinstance(clauses[0], sympy.Symbol):
-        clauses = [clauses]
+    cnf = to_cnf(expr, simplify=True)
+    clauses = cnf.args if isinstance(cnf, sympy.And) else [cnf]
 
     var_dict = {symbol: i + 1 for i, symbol in enumerate(expr.free_symbols)}
     dimacs_clauses = []
